@@ -352,6 +352,26 @@ def _sanitize_units_convert(possible_units, registry):
     if isinstance(possible_units, Unit):
         return possible_units
 
+    quantity_units = getattr(possible_units, "units", None)
+    if (
+        isinstance(quantity_units, Unit)
+        and hasattr(possible_units, "value")
+        and getattr(possible_units, "shape", None) == ()
+    ):
+        # a quantity: what its symbols mean is recorded in its own Unit object;
+        # re-reading their spelling in *registry* may give them another scale
+        # or dimension (other registry, or a registry edited since)
+        value = possible_units.value
+        if value == 1:
+            return quantity_units
+        return Unit(
+            value * quantity_units.expr,
+            base_value=float(value) * quantity_units.base_value,
+            base_offset=0.0,
+            dimensions=quantity_units.dimensions,
+            registry=quantity_units.registry,
+        )
+
     # let Unit() try to parse this if it's not already a Unit
     unit = Unit(possible_units, registry=registry)
 
